@@ -22,7 +22,7 @@ from vlib import Check, ToolError, log, scratch, seed, tlc
 NI, NV, NVAL, NNS, DIM = 3, 4, 2, 2, 8
 LIMIT_A = 2
 KEY_ROW11 = "C10-search-postfilter-leaks-count"
-TNAMES = {1: "ta", 2: "tb", 3: "tc"}
+TPOOL = ["ta", "tb", "tc"]       # the server numbers the enabled tenants in sorted order of their ids
 MC = {"NI": 2, "NV": 2, "NVal": 2, "NT": 2, "NNs": 1, "MaxK": 2, "CapQ": 1, "LimitA": 1}
 GEN = {"NI": NI, "NV": NV, "NVal": NVAL, "NNs": NNS, "MaxK": 3, "CapQ": 4, "LimitA": LIMIT_A, "Gen": "TRUE"}
 RESERVED = ("__tenant_idx__", "__tenant_id__", "__namespace__")
@@ -36,7 +36,9 @@ DEVIATIONS = [("SearchPostFilter", "TRUE", "the code as it is: global k-NN, tena
               ("UsageScoped", "FALSE", "mutation: /usage lists every tenant"),
               ("NsChecked", "FALSE", "mutation: namespace selector ignored"),
               ("IdMapped", "FALSE", "mutation: local ids not mapped per tenant"),
-              ("AuthChecked", "FALSE", "mutation: requests without a valid key are served")]
+              ("AuthChecked", "FALSE", "mutation: requests without a valid key are served"),
+              ("RangeChecked", "FALSE", "mutation: the high word of a client id is OR-ed into the tenant half of the global id"),
+              ("ReservedKeptOnMerge", "FALSE", "mutation: UpdateMetadata in merge mode stores client-supplied reserved keys")]
 
 
 # ----------------------------------------------------------------------------------------------
@@ -167,11 +169,18 @@ def abs_meta(md):
 class Scenario:
     def __init__(self, si, scn, sd):
         self.si, self.nt, self.steps = si, scn["nt"], scn["steps"]
+        for r in self.steps:                    # scenarios recorded before the field existed
+            r.setdefault("hi", 0)
+            for it in r["items"]:
+                it.setdefault("hi", 0)
         self.rnd = random.Random(sd * 1000003 + 1000 + scn.get("si", si))
         self.metric = self.rnd.choice(["euclidean", "cosine"])
         self.geo = Geo(self.metric, self.rnd)
-        self.keys = [{"tenant_id": TNAMES[t], "max_vectors": LIMIT_A if t == 1 else NI} for t in range(1, self.nt + 1)]
-        self.keys += [{"tenant_id": "dis", "enabled": False}, {"tenant_id": "adm", "is_admin": True}]
+        names = TPOOL[:self.nt]
+        self.rnd.shuffle(names)                 # which tenant gets index 0 / 1 / 2 is seeded (the observer is not always 0)
+        self.tn = {t: names[t - 1] for t in range(1, self.nt + 1)}
+        self.keys = [{"tenant_id": self.tn[t], "max_vectors": LIMIT_A if t == 1 else NI} for t in range(1, self.nt + 1)]
+        self.keys += [{"tenant_id": "zdis", "enabled": False}, {"tenant_id": "zadm", "is_admin": True}]
         self.cfg = {"hnsw": {"dimension": DIM, "distance": self.metric, "max_elements": 100000},
                     "cache": {"capacity": 4096, "hot_tier_max_age_secs": 3600, "query_cache_similarity_threshold": 1.0}}
         self.idx = {}             # tenant number -> tenant index in the server (read from tenants.json)
@@ -185,10 +194,24 @@ class Scenario:
         md = {k: mval(v) for k, v in m.items() if v}
         if spoof:
             o = t % self.nt + 1
-            md["__tenant_idx__"] = str(self.idx.get(o, o - 1))
-            md["__tenant_id__"] = TNAMES[o]
-            md["__namespace__"] = self.ns(self.rnd.randint(1, NNS))
+            kind = self.rnd.choice(["all", "all", "tenant", "idx", "ns"])
+            if kind in ("all", "tenant", "idx"):
+                md["__tenant_idx__"] = str(self.idx.get(o, o - 1))
+            if kind in ("all", "tenant"):
+                md["__tenant_id__"] = self.tn[o]
+            if kind in ("all", "ns"):
+                md["__namespace__"] = self.ns(self.rnd.randint(1, NNS))
         return md
+
+    def hid(self, local, h, t):
+        """local id with the high word set: h = tenant u -> the bits of u's index (1 when that is 0), h = nt + 1 -> a large value"""
+        if not h:
+            return local
+        if h <= self.nt:
+            k = self.idx[h] or 1
+        else:
+            k = self.rnd.choice([0x7FFFFFFF, 0xFFFFFFFF, 1 << 20, 3])
+        return (k << 32) | local
 
     def filt(self, f, t):
         op = f["op"]
@@ -198,7 +221,7 @@ class Scenario:
         if op == "ti":
             if self.rnd.random() < 0.5:
                 return {"exact": {"key": "__tenant_idx__", "value": str(self.idx[f["u"]])}}
-            return {"exact": {"key": "__tenant_id__", "value": TNAMES[f["u"]]}}
+            return {"exact": {"key": "__tenant_id__", "value": self.tn[f["u"]]}}
         if op == "nsa":
             return {"exact": {"key": "__namespace__", "value": self.ns(f["n"])}}
         if op == "not":
@@ -208,21 +231,29 @@ class Scenario:
     def key_for(self, r):
         k = r["key"]
         if k == "valid":
-            return srvlib.derive_key(TNAMES[r["t"]])
+            return srvlib.derive_key(self.tn[r["t"]])
         if k == "none":
             return ""
         if k == "disabled":
-            return srvlib.derive_key("dis")
-        return "kyro_%s_%032x" % (TNAMES[r["t"]], self.rnd.getrandbits(128))
+            return srvlib.derive_key("zdis")
+        return "kyro_%s_%032x" % (self.tn[r["t"]], self.rnd.getrandbits(128))
 
     def item(self, it, r):
-        return {"doc_id": it["id"], "embedding": self.geo.vec(it["v"], self.rnd), "metadata": self.meta(it["m"], r["t"], r["spoof"]),
+        return {"doc_id": self.hid(it["id"], it.get("hi", 0), r["t"]), "embedding": self.geo.vec(it["v"], self.rnd), "metadata": self.meta(it["m"], r["t"], r["spoof"]),
                 "namespace": self.ns(r["ns"])}
+
+    def hids(self, r, t):
+        """id list of a BatchDelete / BulkQuery; r.hi applies to one id of the list (first or last, seeded)"""
+        ids = list(r["ids"])
+        if r["hi"] and ids:
+            j = self.rnd.choice([0, len(ids) - 1])
+            ids[j] = self.hid(ids[j], r["hi"], t)
+        return ids
 
     def concrete(self, r):
         """-> (srvdrive request, via)"""
         rnd, t, rpc = self.rnd, r["t"], r["rpc"]
-        base = {"tenant": TNAMES[t], "key": self.key_for(r)}
+        base = {"tenant": self.tn[t], "key": self.key_for(r)}
         if rnd.random() < 0.2 and base["key"]:
             base["bearer"] = True
         nsx = self.ns(r["ns"])
@@ -234,19 +265,20 @@ class Scenario:
         if rpc in ("binsert", "bload"):
             return dict(base, rpc="BulkInsert" if rpc == "binsert" else "BulkLoadHnsw", items=[self.item(it, r) for it in r["items"]]), "stream"
         if rpc == "umeta":
-            return dict(base, rpc="UpdateMetadata", doc_id=r["id"], metadata=self.meta(r["m"], t, r["spoof"]), merge=r["merge"], namespace=nsx), "unary"
+            return dict(base, rpc="UpdateMetadata", doc_id=self.hid(r["id"], r["hi"], t), metadata=self.meta(r["m"], t, r["spoof"]), merge=r["merge"], namespace=nsx), "unary"
         if rpc == "delete":
-            return dict(base, rpc="Delete", doc_id=r["id"], namespace=nsx), "unary"
+            return dict(base, rpc="Delete", doc_id=self.hid(r["id"], r["hi"], t), namespace=nsx), "unary"
         if rpc == "bdelete":
-            return dict(base, rpc="BatchDelete", ids=list(r["ids"]), namespace=nsx), "unary"
+            return dict(base, rpc="BatchDelete", ids=self.hids(r, t), namespace=nsx), "unary"
         if rpc == "fdelete":
             return dict(base, rpc="BatchDelete", filter=self.filt(r["f"], t), namespace=nsx), "unary"
         if rpc == "query":
-            return dict(base, rpc="Query", doc_id=r["id"], include_embedding=rnd.random() < 0.6, namespace=nsx), "unary"
+            return dict(base, rpc="Query", doc_id=self.hid(r["id"], r["hi"], t), include_embedding=rnd.random() < 0.6, namespace=nsx), "unary"
         if rpc == "bquery":
-            return dict(base, rpc="BulkQuery", doc_ids=list(r["ids"]), include_embeddings=rnd.random() < 0.6, namespace=nsx), "unary"
+            return dict(base, rpc="BulkQuery", doc_ids=self.hids(r, t), include_embeddings=rnd.random() < 0.6, namespace=nsx), "unary"
         if rpc == "search":
-            s = {"query_embedding": self.geo.vec(r["q"], rnd), "k": r["k"], "namespace": nsx, "include_embeddings": rnd.random() < 0.5}
+            s = {"query_embedding": self.geo.vec(r["q"], rnd), "k": r["k"], "namespace": nsx, "include_embeddings": rnd.random() < 0.5,
+                 "ef_search": rnd.choice([0, 0, 0, 40])}          # an explicit ef_search bypasses the query cache
             if r["f"]["op"] != "none":
                 if r["f"]["op"] == "k" and rnd.random() < 0.3:
                     s["metadata_filters"] = {r["f"]["key"]: mval(r["f"]["val"])}     # legacy exact-match map
@@ -264,9 +296,9 @@ class Scenario:
 
     def census_reqs(self, t):
         ids = list(range(1, NI + 1))
-        k = srvlib.derive_key(TNAMES[t])
-        out = [{"rpc": "BulkQuery", "tenant": TNAMES[t], "key": k, "doc_ids": ids, "include_embeddings": True}]
-        out += [{"rpc": "BulkQuery", "tenant": TNAMES[t], "key": k, "doc_ids": ids, "namespace": self.ns(n)} for n in range(1, NNS + 1)]
+        k = srvlib.derive_key(self.tn[t])
+        out = [{"rpc": "BulkQuery", "tenant": self.tn[t], "key": k, "doc_ids": ids, "include_embeddings": True}]
+        out += [{"rpc": "BulkQuery", "tenant": self.tn[t], "key": k, "doc_ids": ids, "namespace": self.ns(n)} for n in range(1, NNS + 1)]
         return out
 
     # -- answers -> observations ---------------------------------------------------------------
@@ -343,7 +375,7 @@ class Scenario:
                     o["bad"] += 1
                 else:
                     ts = js.get("tenants") or []
-                    mine = [x for x in ts if x.get("tenant_id") == TNAMES[r["t"]]]
+                    mine = [x for x in ts if x.get("tenant_id") == self.tn[r["t"]]]
                     o["n"] = len(ts)
                     o["bad"] += len(ts) - len(mine)
                     if mine:
@@ -382,7 +414,7 @@ class Scenario:
             srv.start()
             if not self.idx:
                 tm = json.load(open(os.path.join(srv.data_dir, "tenants.json")))
-                self.idx = {t: int(tm[TNAMES[t]]) for t in range(1, self.nt + 1)}
+                self.idx = {t: int(tm[self.tn[t]]) for t in range(1, self.nt + 1)}
             if self.creqs is None:
                 self.creqs = [self.concrete(r) for r in self.steps]
             script, marks = [], []
@@ -562,6 +594,18 @@ def selftest(ck, blocks, bad0, rnd):
         c = e["cen"][e["r"]["id"] - 1]
         c["ns"] = c["ns"] % NNS + 1
         expect[k] = "census: the tenant's documents are not what its own history explains"
+    # 10. an id with the high word set is served
+    e, k = take(lambda e, b, i: own(e) and e["r"]["hi"] and e["r"]["rpc"] in ("insert", "delete", "umeta", "query") and e["o"]["st"] != "OK")
+    if e:
+        e["o"]["st"] = "OK"
+        expect[k] = "id outside the tenant-local range was not refused"
+    # 11. a stream counts an out-of-range item as loaded
+    e, k = take(lambda e, b, i: own(e) and e["r"]["rpc"] in ("binsert", "bload") and e["o"]["st"] == "OK" and e["o"]["tf"] > 0 and
+                any(it["hi"] for it in e["r"]["items"]))
+    if e:
+        e["o"]["n"] += 1
+        e["o"]["tf"] -= 1
+        expect[k] = "flag or count not explained by the tenant's own history"
     if len(expect) < 6:
         raise ToolError("TenantView self-test is vacuous: only %d corruptions applicable" % len(expect))
     r, bad, n = judge_raw(blocks, "selftest")
@@ -610,7 +654,7 @@ def report(ck, scns, blocks, bad):
                "finding_key": key, "metric": s.metric, "event": trim(e), "request": trim(creq),
                "answer_full": trim(s.full[e["n"]][0]), "answer_solo": trim(s.solo[e["n"]][0])}
         what = ("tenant %s (%s), step %d %s %s: %s; full run answered %s, solo run %s; scenario of %d tenants, %s"
-                % (TNAMES[t], "observer" if t == 1 else "other", e["n"], "own" if e["own"] else "foreign", json.dumps(trim(e["r"]))[:260],
+                % (s.tn[t], "observer" if t == 1 else "other", e["n"], "own" if e["own"] else "foreign", json.dumps(trim(e["r"]))[:260],
                    "; ".join(reasons), json.dumps(trim(e["o"]))[:260], json.dumps(trim(e["o2"]))[:200] if e["has2"] else "-", s.nt, s.metric))
         ck.violation(rep, what, finding_key=key)
     return stats, bad_scn
